@@ -75,6 +75,16 @@ class Contract:
         return e
 
 
+class VPoison(V):
+    """value of a variable that a loop may have changed and whose type pyvc cannot havoc: any use is outside the subset"""
+
+    def __init__(self, name):
+        self.name = name
+
+    def __repr__(self):
+        return f"<poison {self.name}: havoc of this variable needs a declared type>"
+
+
 class ContractSet:
     def __init__(self, loader, directory):
         self.L = loader
@@ -84,6 +94,7 @@ class ContractSet:
         self.fields = {}
         self.modules = {}
         self.opaque = {}
+        self.pre_vals = None
         self.old_vals = None
         self.entry_frame = None
         self.active = []            # stack of contracts being verified/applied
@@ -133,7 +144,7 @@ class ContractSet:
         c = self.contracts.get(qualname)
         if c is None or c.inline:
             return None
-        if I.verifying == qualname and not I.in_callee:
+        if I.verifying is not None and I.verifying.split("#")[0] == qualname and not I.in_callee:
             return None
         cur = self.contracts.get(I.verifying) if I.verifying else None
         if cur is not None and qualname in cur.calls_inline:
@@ -248,17 +259,30 @@ class ContractSet:
             cls = I.class_by_qual(typ[4:].replace("enum:", ""))
             uni = [VInt(c=v, enum=cls) for v in I.enum_values(cls)]
             mem = [z3.Bool(fresh(f"{name}_has_{v.c}")) for v in uni]
-            return B.new_symset(I, uni, mem)
+            ref = B.new_symset(I, uni, mem)
+            I.hobj(ref).meta["init_mem"] = list(mem)
+            return ref
         if typ.startswith("symdict:"):
-            # symdict:<expr giving list of keys>:<value type>
-            _, keys_src, vt = typ.split(":", 2)
-            fr = Frame(self.any_module())
-            keys = I.iterate(I.ev(ast.parse(keys_src, mode="eval").body, fr))
+            # symdict:<name of a dict {key: value type} or list of keys>[:<key enum or value type>]
+            parts = typ.split(":", 2)
+            keys_src = parts[1]
+            extra = parts[2] if len(parts) > 2 else None
+            fr = Frame(self.module_defining(keys_src))
+            kv = I.ev(ast.parse(keys_src, mode="eval").body, fr)
             triples = []
-            for k in keys:
+            kenum = I.class_by_qual(extra[5:]) if extra and extra.startswith("enum:") else None
+            if isinstance(kv, VRef) and I.hobj(kv).kind == "dict":
+                pairs = [(k, v.c) for k, v in I.hobj(kv).items]
+            else:
+                pairs = [(k, extra) for k in I.iterate(kv)]
+            for k, vt in pairs:
                 kn = k.c if isinstance(k, (VStr, VInt)) else "k"
+                if kenum is not None:
+                    k = VInt(c=k.c, enum=kenum)
                 triples.append((k, z3.Bool(fresh(f"{name}_has_{kn}")), self.make(I, vt, f"{name}[{kn}]", depth + 1)))
-            return B.new_symdict(I, triples)
+            ref = B.new_symdict(I, triples)
+            I.hobj(ref).meta["init_items"] = list(triples)
+            return ref
         if typ.startswith("list:"):
             from . import symlist
             return symlist.make(I, self, typ[5:], name)
@@ -269,6 +293,12 @@ class ContractSet:
             return libmodels.make_ext(I, self, typ[4:], name)
         raise Unsupported(f"unknown type {typ!r}")
 
+    def module_defining(self, name):
+        for m in self.modules.values():
+            if name in m.defs:
+                return m
+        return self.any_module()
+
     def any_module(self):
         return next(iter(self.modules.values()))
 
@@ -278,14 +308,19 @@ class ContractSet:
     def clause_frame(self, c: Contract, loc):
         return Frame(c.module, locals=dict(loc), func="<spec>")
 
-    def eval_clause(self, I: Interp, c: Contract, src, fr) -> VBool:
-        v = I.ev(c.expr(src), fr)
+    def eval_clause(self, I: Interp, c: Contract, src, fr, assuming=True) -> VBool:
+        try:
+            v = I.ev(c.expr(src), fr)
+        except PyRaise as e:
+            if assuming:
+                raise Unsupported(f"specification clause raised {I.hobj(e.exc).cls.name} while being assumed: {src}")
+            raise
         return ops.truth(I, v)
 
     def check_clause(self, I, c, name, src, fr):
         saved_old = self.old_vals
         try:
-            t = self.eval_clause(I, c, src, fr)
+            t = self.eval_clause(I, c, src, fr, assuming=False)
             I.path.oblige(name, t.term(), {"clause": src, "contract": c.target})
         except PyRaise as e:
             I.path.oblige(name, False, {"clause": src, "contract": c.target,
@@ -338,7 +373,7 @@ class ContractSet:
     # ------------------------------------------------------------------------------------------
     def resolve_target(self, I, c: Contract):
         """VFunc of the real function (from the current working tree)"""
-        m, rest = self.L.find_function(c.target)
+        m, rest = self.L.find_function(c.target.split("#")[0])
         v = I.module_get(m, rest[0])
         for p in rest[1:]:
             if isinstance(v, ClassInfo):
@@ -548,7 +583,7 @@ class ContractSet:
         caller = I.verifying
         for k, src in enumerate(c.requires):
             try:
-                t = self.eval_clause(I, c, src, sfr)
+                t = self.eval_clause(I, c, src, sfr, assuming=False)
                 P.oblige(f"{caller}.call.{c.target.split('.', 1)[-1]}.pre.{k}", t.term(), {"clause": src, "callee": c.target})
                 P.assume(t.term())
             except PyRaise as e:
@@ -601,8 +636,15 @@ class ContractSet:
 
     def havoc_modifies(self, I, c, sfr, mods):
         for lv in mods:
-            if lv.endswith(".*") or lv.endswith(".**"):
-                raise Unsupported("wildcard modifies at a call site")
+            if lv.endswith(".*"):
+                base = I.resolve(I.ev(c.expr(lv[:-2]), sfr))
+                if not isinstance(base, VRef) or I.hobj(base).cls is None:
+                    raise Unsupported(f"modifies {lv}: not an object")
+                for f, ft in self.class_fields(I.hobj(base).cls).items():
+                    I.setattr_(base, f, self.make(I, ft, f"havoc_{lv[:-2]}.{f}"))
+                continue
+            if lv.endswith(".**"):
+                raise Unsupported("deep wildcard modifies at a call site")
             tgt = c.expr(lv)
             if isinstance(tgt, ast.Attribute):
                 base = I.resolve(I.ev(tgt.value, sfr))
@@ -630,6 +672,8 @@ class ContractSet:
         if q is None:
             return None
         c = self.contracts.get(q)
+        if I.verifying is not None and I.verifying.split("#")[0] == q:
+            c = self.contracts.get(I.verifying) or c
         if c is None:
             return None
         k = getattr(node, "_pyvc_ord", None)
@@ -672,9 +716,15 @@ class ContractSet:
             return NONE
         if isinstance(v, VStr):
             return VStr(t=z3.Const(fresh(name), STR))
-        raise Unsupported(f"cannot havoc {name} = {v!r}; declare its type in the loop contract")
+        return VPoison(name)
 
-    def run_loop(self, I: Interp, lcinfo, node, fr):
+    def eval_pre(self, I, node, fr):
+        k = ast.unparse(node.args[0])
+        if self.pre_vals is None or k not in self.pre_vals:
+            raise Unsupported(f"pre({k}) outside a loop step clause")
+        return self.pre_vals[k]
+
+    def run_loop(self, I: Interp, lcinfo, node, fr, it=None):
         c, k, lc = lcinfo
         P = I.path
         tag = f"{c.target}.loop{k}"
@@ -682,9 +732,6 @@ class ContractSet:
         sfr = Frame(c.module, locals=fr.locals, parent=None, func="<spec>")    # shares the locals of the function
         dom = None
         if is_for:
-            it = I.ev(node.iter, fr)
-            if isinstance(node, ast.AsyncFor):
-                it = I.await_(it)
             dom = self.loop_domain(I, it)
         # ghost initialisation
         for g, src in lc.get("ghost_init", {}).items():
@@ -726,6 +773,10 @@ class ContractSet:
                 nv = self.make(I, t, lv)
             I.setattr_(base, tgt.attr, nv)
             hav_lvs.append((base, tgt.attr))
+        hav_sizes = []
+        for (b_, a_) in hav_lvs:
+            cur = I.getattr_(b_, a_)
+            hav_sizes.append(len(I.hobj(cur).items) if isinstance(cur, VRef) and I.hobj(cur).kind in ("symdict", "symset") else None)
         if is_for:
             i = z3.Int(fresh("_i"))
             P.assume(i >= 0)
@@ -745,6 +796,18 @@ class ContractSet:
             else:
                 if not I.cond(I.ev(node.test, fr), "loopguard"):
                     raise PathEnd("guard false in arbitrary iteration")
+            for src in lc.get("assume", []):
+                t = self.eval_clause(I, c, src, sfr)
+                P.assume(t.term())
+                P.assumption(f"{tag}: per-iteration instance of the function's well-formedness pre-condition: {src}")
+            pre_srcs = list(lc.get("step_ensures", {}).values()) + list(lc.get("ghost_step", {}).values())
+            pre_vals = {}
+            for src in pre_srcs:
+                for n_ in ast.walk(c.expr(src)):
+                    if isinstance(n_, ast.Call) and isinstance(n_.func, ast.Name) and n_.func.id == "pre":
+                        kk = ast.unparse(n_.args[0])
+                        if kk not in pre_vals:
+                            pre_vals[kk] = self.snapshot(I, I.ev(n_.args[0], sfr))
             variant0 = I.ev(c.expr(lc["variant"]), sfr) if lc.get("variant") else None
             P.ghost["loop_ref_mark"] = P.next_ref
             saved_log = I.write_log
@@ -763,10 +826,21 @@ class ContractSet:
             log = I.write_log
             I.write_log = saved_log
             self.check_writes(I, c, tag, log, fr, set(hav_names) | set(body_names), hav_lvs)
+            for (b_, a_), n0 in zip(hav_lvs, hav_sizes):
+                cur = I.getattr_(b_, a_)
+                if n0 is not None and isinstance(cur, VRef) and len(I.hobj(cur).items) != n0:
+                    raise Unsupported(f"{tag}: key universe of {a_} is incomplete (the loop body added a new key)")
             if is_for:
                 fr.locals["_i"] = ops._arith(I, "+", fr.locals["_i"], mkint(1))
-            for g, src in lc.get("ghost_step", {}).items():
-                fr.locals[g] = I.ev(c.expr(src), sfr)
+            saved_pre = self.pre_vals
+            self.pre_vals = pre_vals
+            try:
+                for g, src in lc.get("ghost_step", {}).items():
+                    fr.locals[g] = I.ev(c.expr(src), sfr)
+                for n, src in lc.get("step_ensures", {}).items():
+                    self.check_clause(I, c, f"{tag}.step.{n}", src, sfr)
+            finally:
+                self.pre_vals = saved_pre
             for n, src in lc.get("define", {}).items():
                 self.check_clause(I, c, f"{tag}.step.define.{n}", f"({n}) == ({src})", sfr)
             for j, src in enumerate(lc.get("invariant", [])):
